@@ -540,7 +540,12 @@ import array as _array
 
 def t_islice(I, args, kw, node):
     """itertools.islice(iterable, stop) / (iterable, start, stop) on a sequence of known length"""
-    xs = I.iter_concrete(args[0], node)
+    a0 = args[0]
+    if a0 is None or isinstance(a0, (int, float, bool)) or (L.is_z3(a0) and not isinstance(a0, z3.SeqRef)) \
+            or (not isinstance(a0, (SObj, SBytes, SList, str, bytes, list, tuple, dict, set, frozenset)) and not L.is_z3(a0) and not hasattr(a0, "__iter__")
+                and type(a0).__module__.startswith("pdfminer")):
+        raise _sx().SymRaise(TypeError, "object is not iterable")
+    xs = I.iter_concrete(a0, node)
     rest = [a for a in args[1:]]
     if any(L.is_z3(a) for a in rest):
         raise SymError("islice with symbolic bounds")
